@@ -274,6 +274,9 @@ Definition frame_json (f : frame) : json := match f with FJson j => j | FText _ 
 (* ------------------------------------------------------------------------------------------ *)
 (* The machine                                                                                 *)
 
+(* `data is not None` (since /repo 8b27040; before: Python truthiness of the data) *)
+Definition nonnull (j : json) : bool := match j with JNull => false | _ => true end.
+
 Inductive phase := AwaitAck | Streaming | Done (o : outcome).
 
 Definition step (rq : request) (ph : phase) (f : frame) : phase * list event :=
@@ -297,7 +300,7 @@ Definition step (rq : request) (ph : phase) (f : frame) : phase * list event :=
       | TKnown t p =>
           match action_of t p with
           | ANone => (ph, [ERecv])
-          | AData d => (ph, ERecv :: if truthy d then [EYield d] else [])   (* `if data: yield data` *)
+          | AData d => (ph, ERecv :: if nonnull d then [EYield d] else [])   (* `if data is not None: yield data` *)
           | AInvalid => (Done (RaisedInvalid (Some f)), [ERecv])
           | AClose => (Done Finished, [ERecv; EClose])   (* close(); return _WS_COMPLETE; break *)
           | APong => (ph, [ERecv; ESend pong_msg])
@@ -372,7 +375,7 @@ Definition step_otel (rq : request) (ph : phase) (f : frame) : phase * list even
       | TKnown t p =>
           match action_of t p with
           | ANone => (ph, [ERecv], [SPAN_RECV])
-          | AData d => (ph, ERecv :: if truthy d then [EYield d] else [], [SPAN_RECV])
+          | AData d => (ph, ERecv :: if nonnull d then [EYield d] else [], [SPAN_RECV])
           | AInvalid => (Done (RaisedInvalid (Some f)), [ERecv], [SPAN_RECV])
           | AClose => (Done Finished, [ERecv; EClose], [SPAN_RECV])
           | APong => (ph, [ERecv; ESend pong_msg], [SPAN_RECV])
@@ -522,9 +525,9 @@ Fixpoint spec_prefix (fs : list frame) : list frame :=
   | f :: r => if terminal (skind_of f) then [f] else f :: spec_prefix r
   end.
 
-(* G14: every next frame the specification yields carries truthy data *)
-Definition g_truthy (fs : list frame) : bool :=
-  forallb (fun f => match skind_of f with SNext d => truthy d | _ => true end) (spec_prefix fs).
+(* G14 (narrowed by /repo 8b27040): no next frame the specification yields carries `data: null` *)
+Definition g_nonnull (fs : list frame) : bool :=
+  forallb (fun f => match skind_of f with SNext d => nonnull d | _ => true end) (spec_prefix fs).
 
 (* G-shape over the frames the specification consumes *)
 Definition g_shape (fs : list frame) : bool :=
@@ -639,7 +642,7 @@ Definition run_ws_cmd (e : sexp) : sexp :=
       match dRequest rq, dList dFrame fs with
       | Some rq, Some fs =>
           L [sB (g_shape fs);
-             sB (match fs with f :: r => g_truthy r | [] => true end);
+             sB (match fs with f :: r => g_nonnull r | [] => true end);
              L (map (fun f => sKind (skind_of f)) fs)]
       | _, _ => sErr "guards: input"
       end
